@@ -48,6 +48,11 @@ def check_tables(run, tables, ex, jnp, rng, tier):
                 omega = 2 * np.pi / L
                 key = {"kind": "multiplier", "cls": cls, "mix": mix, "D": D, "N": N, "variant": lab}
                 run.case(("mult", cls, mix, D, N, lab, rep))
+                # dt * lambda is what matters: a tiny coefficient list with a huge dt is the same step (SI-unit coefficients)
+                if cls == "GeneralLinear" and rep == 1:
+                    kw = dict(kw, linear_coefficients=tuple(c * 1e-11 for c in kw["linear_coefficients"]))
+                    params = {k: v * 1e-11 for k, v in params.items()}
+                    dt = dt * 1e11
                 try:
                     st = registry.make(rname, D, N, L=L, dt=dt, **{k: (jnp.asarray(v) if isinstance(v, np.ndarray) else v) for k, v in kw.items()})
                 except Exception as e:  # noqa: BLE001
